@@ -212,7 +212,7 @@ class TdmsSegment(object):
         return metadata
 
     def raw_data_index(self, obj):
-        if hasattr(obj, 'data'):
+        if _has_data(obj):
             data_type = Int32(obj.data_type.enum_value)
             dimension = Uint32(1)
             num_values = Uint64(len(obj.data))
@@ -250,14 +250,20 @@ class TdmsSegment(object):
     def _data_size(self):
         data_size = 0
         for obj in self.objects:
-            if hasattr(obj, 'data'):
+            if _has_data(obj):
                 data_size += object_data_size(obj.data_type, obj.data)
         return data_size
 
     def _write_data(self, file):
         for obj in self.objects:
-            if hasattr(obj, 'data'):
+            if _has_data(obj):
                 write_data(file, obj)
+
+
+def _has_data(obj):
+    """ Whether an object has data to write. Empty data of an unknown type is written as an object without data.
+    """
+    return hasattr(obj, 'data') and obj.data_type != Void
 
 
 class TdmsObject(object):
